@@ -91,6 +91,7 @@ func c11r6(c *RC) {
 			}
 			return true
 		})
+		c11columnsChecklist(c, fn, q)
 		c.Check(lowered, q+"|capacity-is-the-smallest-column-capacity", pr.Pos(fn.Body.Pos()),
 			q+": "+why+": a frame over columns of different capacities claims rows that a shorter column does not have, and growing it in place (Grow, Ensure, AppendFrame, Slice up to Cap) writes outside that column's storage")
 	}
@@ -173,4 +174,219 @@ func c11r6(c *RC) {
 		c.Check(okS, fq+"|reslices-only-within-capacity", pr.Pos(fn.Body.Pos()),
 			"Ensure(n) re-slices the frame to (0, n) on a path where n may exceed its capacity")
 	}
+}
+
+// c11columnsChecklist: the two constructors over caller-supplied columns are
+// siblings; each must (1) take length and capacity from the first column,
+// exactly when the column index is 0, (2) panic when a later column's length
+// differs, (3) panic on a non-slice column, and (4) store every column's data
+// at its own index, unconditionally.
+func c11columnsChecklist(c *RC, fn *Func, q string) {
+	pr := c.P
+	// the loop over the columns
+	var loop *ast.RangeStmt
+	inspectNoLit(fn.Body, func(n ast.Node) bool {
+		if r, ok := n.(*ast.RangeStmt); ok && loop == nil && r.Key != nil {
+			loop = r
+		}
+		return true
+	})
+	if loop == nil {
+		c.Undecide("%s: no loop over the columns", q)
+		return
+	}
+	iv := expr(loop.Key)
+	fieldOf := func(e ast.Expr) string {
+		if sel, ok := ast.Unparen(e).(*ast.SelectorExpr); ok {
+			return pr.fieldQName(fn.Pkg.FieldOf(sel))
+		}
+		return ""
+	}
+	panics := func(b *ast.BlockStmt) bool {
+		if b == nil || len(b.List) == 0 {
+			return false
+		}
+		es, ok := b.List[0].(*ast.ExprStmt)
+		if !ok {
+			return false
+		}
+		k, ok := es.X.(*ast.CallExpr)
+		return ok && expr(k.Fun) == "panic"
+	}
+	firstOK, lenOK, kindOK := false, false, false
+	inspectNoLit(loop.Body, func(n ast.Node) bool {
+		ifs, ok := n.(*ast.IfStmt)
+		if !ok {
+			return true
+		}
+		// (1) the arm taken exactly when the index is 0 sets len and cap
+		if v, known := evalCond(ifs.Cond, func(e ast.Expr) (bool, bool) {
+			be, ok := ast.Unparen(e).(*ast.BinaryExpr)
+			if !ok || (be.Op != token.EQL && be.Op != token.NEQ) {
+				return false, false
+			}
+			x, y := be.X, be.Y
+			if expr(y) == iv {
+				x, y = y, x
+			}
+			if z, isC := constInt(fn.Pkg, y); expr(x) == iv && isC && z == 0 {
+				return be.Op == token.EQL, true
+			}
+			return false, false
+		}); known {
+			arm := ifs.Body
+			if !v {
+				arm, _ = ifs.Else.(*ast.BlockStmt)
+			}
+			setLen, setCap := false, false
+			if arm != nil {
+				for _, st := range arm.List {
+					if as, ok := st.(*ast.AssignStmt); ok && len(as.Lhs) == 1 && len(as.Rhs) == 1 {
+						switch fieldOf(as.Lhs[0]) {
+						case "frame.Frame.len":
+							setLen = true
+						case "frame.Frame.cap":
+							if k, ok := as.Rhs[0].(*ast.CallExpr); ok && strings.HasSuffix(expr(k.Fun), ".Cap") {
+								setCap = true
+							}
+						}
+					}
+				}
+			}
+			firstOK = setLen && setCap
+		}
+		// (2) a length that differs from the frame's panics
+		if be, ok := ast.Unparen(ifs.Cond).(*ast.BinaryExpr); ok && (be.Op == token.NEQ || be.Op == token.EQL) {
+			if fieldOf(be.X) == "frame.Frame.len" || fieldOf(be.Y) == "frame.Frame.len" {
+				arm := ifs.Body
+				if be.Op == token.EQL {
+					arm, _ = ifs.Else.(*ast.BlockStmt)
+				}
+				lenOK = panics(arm)
+			}
+		}
+		// (3) non-slice kinds panic
+		if v, known := evalCond(ifs.Cond, func(e ast.Expr) (bool, bool) {
+			be, ok := ast.Unparen(e).(*ast.BinaryExpr)
+			if !ok || (be.Op != token.EQL && be.Op != token.NEQ) {
+				return false, false
+			}
+			for _, pair := range [][2]ast.Expr{{be.X, be.Y}, {be.Y, be.X}} {
+				if k, ok := ast.Unparen(pair[0]).(*ast.CallExpr); ok && strings.HasSuffix(expr(k.Fun), ".Kind") {
+					if cv, isC := constInt(fn.Pkg, pair[1]); isC && cv == 23 { // reflect.Slice
+						return be.Op == token.EQL, true // value when the kind IS Slice
+					}
+				}
+			}
+			return false, false
+		}); known {
+			arm := ifs.Body
+			if v { // cond true when it is a slice: the panic must be in the else arm
+				arm, _ = ifs.Else.(*ast.BlockStmt)
+			}
+			kindOK = panics(arm)
+		}
+		return true
+	})
+	// (4) data stored at the column's own index, as a direct statement of the loop body
+	stored := false
+	for _, st := range loop.Body.List {
+		as, ok := st.(*ast.AssignStmt)
+		if !ok || len(as.Lhs) != 1 || len(as.Rhs) != 1 {
+			continue
+		}
+		ix, ok := as.Lhs[0].(*ast.IndexExpr)
+		if !ok || fieldOf(ix.X) != "frame.Frame.data" || expr(ix.Index) != iv {
+			continue
+		}
+		if k, ok := as.Rhs[0].(*ast.CallExpr); ok && fn.Pkg.CalleeName(k) == "frame.newData" {
+			stored = true
+		}
+	}
+	// (0) the empty frame is returned exactly when there are no columns
+	emptyOK := true
+	inspectNoLit(fn.Body, func(n ast.Node) bool {
+		ifs, ok := n.(*ast.IfStmt)
+		if !ok || len(ifs.Body.List) != 1 {
+			return true
+		}
+		ret, ok := ifs.Body.List[0].(*ast.ReturnStmt)
+		if !ok || len(ret.Results) != 1 || expr(ret.Results[0]) != "Empty" {
+			return true
+		}
+		v, known := evalCond(ifs.Cond, func(e ast.Expr) (bool, bool) {
+			be, ok := ast.Unparen(e).(*ast.BinaryExpr)
+			if !ok {
+				return false, false
+			}
+			x, y, op := be.X, be.Y, be.Op
+			if _, isC := constInt(fn.Pkg, x); isC {
+				x, y = y, x
+				op = map[token.Token]token.Token{token.LSS: token.GTR, token.GTR: token.LSS, token.LEQ: token.GEQ, token.GEQ: token.LEQ, token.EQL: token.EQL, token.NEQ: token.NEQ}[op]
+			}
+			k, isCall := ast.Unparen(x).(*ast.CallExpr)
+			z, isC := constInt(fn.Pkg, y)
+			if !isCall || expr(k.Fun) != "len" || !isC {
+				return false, false
+			}
+			// value of the comparison when len == 0
+			switch op {
+			case token.EQL:
+				return z == 0, true
+			case token.NEQ:
+				return z != 0, true
+			case token.LSS:
+				return 0 < z, true
+			case token.LEQ:
+				return 0 <= z, true
+			case token.GTR:
+				return 0 > z, true
+			case token.GEQ:
+				return 0 >= z, true
+			}
+			return false, false
+		})
+		// and false when len == 1
+		v1, known1 := evalCond(ifs.Cond, func(e ast.Expr) (bool, bool) {
+			be, ok := ast.Unparen(e).(*ast.BinaryExpr)
+			if !ok {
+				return false, false
+			}
+			x, y, op := be.X, be.Y, be.Op
+			if _, isC := constInt(fn.Pkg, x); isC {
+				x, y = y, x
+				op = map[token.Token]token.Token{token.LSS: token.GTR, token.GTR: token.LSS, token.LEQ: token.GEQ, token.GEQ: token.LEQ, token.EQL: token.EQL, token.NEQ: token.NEQ}[op]
+			}
+			k, isCall := ast.Unparen(x).(*ast.CallExpr)
+			z, isC := constInt(fn.Pkg, y)
+			if !isCall || expr(k.Fun) != "len" || !isC {
+				return false, false
+			}
+			switch op {
+			case token.EQL:
+				return z == 1, true
+			case token.NEQ:
+				return z != 1, true
+			case token.LSS:
+				return 1 < z, true
+			case token.LEQ:
+				return 1 <= z, true
+			case token.GTR:
+				return 1 > z, true
+			case token.GEQ:
+				return 1 >= z, true
+			}
+			return false, false
+		})
+		if !known || !known1 || !v || v1 {
+			emptyOK = false
+		}
+		return true
+	})
+	pos := pr.Pos(loop.Pos())
+	c.Check(emptyOK, q+"|empty-only-without-columns", pos, q+": the empty frame is returned although columns were given (or not returned when none were): every frame built from columns is empty")
+	c.Check(firstOK, q+"|first-column-sets-length-and-capacity", pos, q+": length and capacity are not taken from the column exactly when its index is 0: the frame reports a length its columns do not have")
+	c.Check(lenOK, q+"|unequal-column-lengths-panic", pos, q+": a column whose length differs from the first column's is accepted: rows past the shorter column's end are read from foreign memory")
+	c.Check(kindOK, q+"|non-slice-columns-panic", pos, q+": the kind test of a column is inverted or gone: every slice column is rejected, or a non-slice value is used as one")
+	c.Check(stored, q+"|every-column-stored-at-its-index", pos, q+": a column's data is not stored at its own index on every iteration: the frame has a nil column")
 }
